@@ -62,7 +62,7 @@ func runC16(c *core.Ctx) {
 		sch := fd.S
 		sch.Install()
 		defer sch.Uninstall()
-		defer sch.Off()
+		defer fd.Finish(c)
 		if os.Getenv("VERIF_FTRACE") == "1" {
 			fd.Trace = func(site string, n int) { c.Note("    resume %s (of %d runnable)", site, n) }
 		}
@@ -443,7 +443,7 @@ func runC16(c *core.Ctx) {
 	early = 0
 	settle()
 	if fd != nil {
-		fd.S.Off() // from here on everything runs freely
+		fd.Finish(c) // from here on everything runs freely
 	}
 	synctest.Wait()
 	collect()
